@@ -35,7 +35,7 @@ RULE = ('cases = (view, source size 0-3 rows (+ragged), schedule word over s_i/n
 ASSUMPTIONS = ['single-threaded cooperative schedules (petl has no threads)', 'twin views built from equal sources are deterministic (checked per view)']
 CACHING = ['sort', 'sort-key', 'sort-file-cache', 'sort-reverse-file', 'hashjoin', 'hashleftjoin', 'hashrightjoin', 'cache', 'cache-n2',
            'x:fromdicts-generator', 'x:fromdicts-generator-sample2', 'x:fromdicts-generator-shared-cells', 'join', 'distinct', 'aggregate-buffered']
-REQUIRED = ['failed-pass:source-failed-midway', 'clearcache-under-live-iterators', 'method-form-views', 'views-judged', 'schedules-run', 'fresh-passes-compared'] + ['midfill:' + v for v in CACHING]
+REQUIRED = ['another-view-built-and-read-between-steps', 'failed-pass:source-failed-midway', 'clearcache-under-live-iterators', 'method-form-views', 'views-judged', 'schedules-run', 'fresh-passes-compared'] + ['midfill:' + v for v in CACHING]
 EXHAUSTIVE = {'quick': False, 'thorough': False}
 
 _files = {}
@@ -177,6 +177,14 @@ def _build(name, n, ragged, wrap=None):
 # ---------------------------------------------------------------------------
 # schedules
 
+def _sibling(name):
+    if name in EXTRA:
+        return name
+    fam = name.split('-')[0]
+    sibs = sorted(e.name for e in C.views() if e.name != name and e.name.split('-')[0] == fam and e.arity == C.by_name(name).arity)
+    return sibs[int(util.fp(name)[:4], 16) % len(sibs)] if sibs else name
+
+
 def _word(s):
     """'s0 n0 s1 n1 x0' -> [['s',0],...]"""
     return [[t[0], int(t[1:])] for t in s.split()]
@@ -252,6 +260,10 @@ def cases(ctx):
                         b += 1
                 w += ['x0', 'x1', 's2'] + ['n2'] * (L + 1)
                 yield {'view': name, 'n': n, 'ragged': ragged, 'schedule': _word(' '.join(w))}
+            # another view (a sibling catalogue entry, or the same entry over another table) is built and read to the end while
+            # iterators of this one are live, and before later ones start: views share no state
+            for w in ('s0 n0 n0 o0 ' + 'n0 ' * L + 's1 ' + 'n1 ' * (L + 1), 'o0 s0 s1 n0 n1 o0 ' + 'n1 n0 ' * (L + 1)):
+                yield {'view': name, 'n': n, 'ragged': ragged, 'schedule': _word(w)}
             # a pass during which the source fails once, at data row k, then ordinary passes: nothing the failed pass left behind
             # (a partial cache, a half-written spill file) may show in what later iterators yield
             if n >= 2 and (name not in EXTRA or name.startswith(('x:cache', 'x:sort', 'x:biselect', 'x:unjoin', 'x:diff', 'x:hashjoin'))):
@@ -368,6 +380,7 @@ def judge(case, ctx):
         src.fail_next_at = None
     its, got, done = {}, {}, set()
     out = []
+    others = []            # sibling views built during the schedule stay alive to its end
     last = None
     switches = 0
     midfill = False
@@ -418,6 +431,17 @@ def judge(case, ctx):
                 del its[i]
                 done.add(i)
                 gc.collect()
+        elif op == 'o':
+            # another view comes into being and is read to the end while this one's iterators are live: a sibling entry of the
+            # catalogue (same operator family, other arguments) or the same entry over another table.  Views share nothing
+            sib = _sibling(name)
+            steps_by.append(-1)        # counts as a step taken by someone else
+            ov = util.attempt(lambda: _build(sib, n + 2 if sib == name else n, case['ragged']))
+            if not isinstance(ov, util.Raised):
+                others.append(ov)
+                for v_ in (ov if isinstance(ov, (list, tuple)) else list(ov.values()) if isinstance(ov, dict) else [ov]):
+                    util.attempt(lambda: [None for _ in iter(v_)])
+                ctx.seen('another-view-built-and-read-between-steps')
         elif op == 'c':
             # the public clearcache() of the caching views, called while iterators are live
             if hasattr(view, 'clearcache'):
